@@ -402,6 +402,13 @@ Section DocOk.
     end.
 End DocOk.
 
+(** ** response key order: the keys of the selected fields in order of first appearance *)
+Fixpoint first_occurrences (l : list name) (seen : list name) : list name :=
+  match l with
+  | [] => []
+  | k :: r => if mem k seen then first_occurrences r seen else k :: first_occurrences r (seen ++ [k])
+  end.
+
 (** ** the statements made about an implementation's response *)
 
 (** an error list as a multiset keyed by (path, locations) *)
